@@ -408,6 +408,18 @@ theorem one_cause {w : World} (h : AllInv w) {e1 e2 : HTag} (h1 : e1 ∈ w.ev.pe
     (hc1 : e1.item.c = 0) (hc2 : e2.item.c = 0) (hk1 : isWake e1.item.a) (hk2 : isWake e2.item.a) {p : Pid}
     (hb1 : e1.item.b = p + 1) (hb2 : e2.item.b = p + 1) : e1 = e2 := h.one_success_wakeup h1 h2 hc1 hc2 hk1 hk2 hb1 hb2
 
+/-- whatever pending event would resume `p` with SUCCESS (any action on which the dispatcher resumes a process) is the
+    legitimate wake-up of the call `p` is suspended in -/
+theorem success_only_for_own_cause {w : World} (h : AllInv w) {e : HTag} (he : e ∈ w.ev.pending) (hc : e.item.c = 0)
+    (hk : isResuming e.item.a) {p : Pid} (hb : e.item.b = p + 1) : isWake e.item.a ∧ Cause w e p :=
+  h.success_resume he hc hk hb
+
+/-- with `hold_exact`: a hold returns SUCCESS only through the timer it armed, i.e. only at start + duration -/
+theorem hold_success_only_own_timer {w : World} (h : AllInv w) {e : HTag} (he : e ∈ w.ev.pending)
+    (hc : e.item.c = 0) (hk : isResuming e.item.a) {p : Pid} (hb : e.item.b = p + 1) {k : Nat}
+    (hf : (w.proc p).blocked = some (.hold k)) : e.item.a = aTime ∧ e.key = k :=
+  h.hold_success_only_own_timer he hc hk hb hf
+
 /- non-vacuity: a world with two processes (one with a program that holds and arms a timer), a guard with an empty
    well-formed waiting list, a condition on that guard and a pending start event satisfies `InitOkG` and `SideOk`,
    hence `AllInv`, and so does every state of its run -/
